@@ -524,6 +524,11 @@ fn replay(cli: &Cli, case: &Value) -> ! {
 }
 
 pub fn run(cli: Cli) -> ! {
+    run_with(cli, &|_| {})
+}
+
+/// `extra` adds to the same report (netsim hosts this check and adds whole connections through the assembled router)
+pub fn run_with(cli: Cli, extra: &dyn Fn(&Report)) -> ! {
     if let Some(case) = cli.replay.clone() {
         if case.get("connection").is_none() {
             replay(&cli, &case);
@@ -632,5 +637,6 @@ pub fn run(cli: Cli) -> ! {
     rep.sample(json!({"scenario": {"dir": "write", "msgs": [17, 5, 40], "switch": 1}, "choices": [0, 7, 0, 40], "meaning": "second write accepts 7 bytes, ... , last write Pending once"}));
     rep.assume("the raw AES-128 block function (aes crate) is shared with the implementation; CFB8 chaining, register handling and key=IV are re-implemented");
     rep.assume("of the transport errors only a transient refusal of a write (TimedOut, nothing written, the caller offers the bytes again) is in the alphabet; Pending answers wake immediately");
+    extra(&rep);
     rep.finish()
 }
